@@ -1,0 +1,96 @@
+/*
+Copyright 2026 Codenotary Inc. All rights reserved.
+
+SPDX-License-Identifier: BUSL-1.1
+you may not use this file except in compliance with the License.
+You may obtain a copy of the License at
+
+    https://mariadb.com/bsl11/
+
+Unless required by applicable law or agreed to in writing, software
+distributed under the License is distributed on an "AS IS" BASIS,
+WITHOUT WARRANTIES OR CONDITIONS OF ANY KIND, either express or implied.
+See the License for the specific language governing permissions and
+limitations under the License.
+*/
+
+package schema
+
+import (
+	"fmt"
+
+	"github.com/codenotary/immudb/embedded/store"
+)
+
+// ErrIncompleteProof is returned when a verifiable response misses a part that is required to verify it
+var ErrIncompleteProof = fmt.Errorf("%w: incomplete proof", store.ErrCorruptedData)
+
+// Validate checks that the transaction and the proof headers required by the verification are present
+func (vtx *VerifiableTx) Validate() error {
+	if vtx == nil ||
+		vtx.Tx == nil ||
+		vtx.Tx.Header == nil ||
+		vtx.DualProof == nil ||
+		vtx.DualProof.SourceTxHeader == nil ||
+		vtx.DualProof.TargetTxHeader == nil {
+		return ErrIncompleteProof
+	}
+
+	for _, e := range vtx.Tx.Entries {
+		if e == nil {
+			return ErrIncompleteProof
+		}
+	}
+
+	if vtx.DualProof.LinearAdvanceProof != nil {
+		for _, p := range vtx.DualProof.LinearAdvanceProof.InclusionProofs {
+			if p == nil {
+				return ErrIncompleteProof
+			}
+		}
+	}
+
+	return nil
+}
+
+// Validate checks that the transaction and the proof headers required by the verification are present
+func (vtx *VerifiableTxV2) Validate() error {
+	if vtx == nil ||
+		vtx.Tx == nil ||
+		vtx.Tx.Header == nil ||
+		vtx.DualProof == nil ||
+		vtx.DualProof.SourceTxHeader == nil ||
+		vtx.DualProof.TargetTxHeader == nil {
+		return ErrIncompleteProof
+	}
+
+	for _, e := range vtx.Tx.Entries {
+		if e == nil {
+			return ErrIncompleteProof
+		}
+	}
+
+	return nil
+}
+
+// Validate checks that the entry and the proofs required by the verification are present
+func (ventry *VerifiableEntry) Validate() error {
+	if ventry == nil ||
+		ventry.Entry == nil ||
+		ventry.InclusionProof == nil {
+		return ErrIncompleteProof
+	}
+
+	return ventry.VerifiableTx.Validate()
+}
+
+// Validate checks that the entry and the proofs required by the verification are present
+func (ventry *VerifiableSQLEntry) Validate() error {
+	if ventry == nil ||
+		ventry.SqlEntry == nil ||
+		ventry.InclusionProof == nil {
+		return ErrIncompleteProof
+	}
+
+	return ventry.VerifiableTx.Validate()
+}
